@@ -35,8 +35,9 @@ fn eq_prefix(a: &[u8], b: &[u8], n: usize) {
     }
 }
 
+/// checksum-then-COBS over ONE innermost storage per harness: output == COBS(plain ++ le(crc16(plain))) ++ 00
 macro_rules! stack_crc_cobs {
-    ($name:ident, $ty:ty, $cap:literal, $unwind:literal) => {
+    ($name:ident, $ty:ty, $cap:literal, $unwind:literal, $storage:ident) => {
         #[kani::proof]
         #[kani::unwind($unwind)]
         fn $name() {
@@ -45,70 +46,84 @@ macro_rules! stack_crc_cobs {
             let plain = postcard::to_slice(&v, &mut pb).unwrap();
             let mut want = [0u8; 40];
             let m = crc16_then_cobs(plain, &mut want);
-            // checksum-then-COBS over each innermost storage
-            let mut b1 = [0u8; $cap + 6];
-            let o1 = postcard::serialize_with_flavor(
-                &v,
-                CrcModifier::new(Cobs::try_new(Slice::new(&mut b1)).unwrap(), C16.digest()),
-            )
-            .unwrap();
-            eq_prefix(o1, &want, m);
-            let o2: heapless::Vec<u8, 24> =
-                postcard::serialize_with_flavor(&v, CrcModifier::new(Cobs::try_new(HVec::<24>::new()).unwrap(), C16.digest())).unwrap();
-            eq_prefix(&o2[..], &want, m);
-            let o3: Vec<u8> =
-                postcard::serialize_with_flavor(&v, CrcModifier::new(Cobs::try_new(AllocVec::new()).unwrap(), C16.digest())).unwrap();
-            eq_prefix(&o3[..], &want, m);
-            core::mem::forget(o3);
-            // undo the layers in reverse order: COBS first, then the checksum
-            let mut frame = [0u8; $cap + 6];
-            let mut i = 0;
-            while i < m {
-                frame[i] = want[i];
-                i += 1;
-            }
-            let dn = cobs::decode_in_place(&mut frame[..m]).unwrap();
-            let back: $ty = postcard::de_flavors::crc::from_bytes_u16(&frame[..dn], C16.digest()).unwrap();
-            assert!(back == v);
+            stack_crc_cobs!(@run $storage, v, want, m, $cap);
             kani::cover!(plain.len() == $cap, "longest payload reachable");
         }
     };
+    (@run slice, $v:ident, $want:ident, $m:ident, $cap:literal) => {
+        let mut b1 = [0u8; $cap + 6];
+        let o1 = postcard::serialize_with_flavor(&$v, CrcModifier::new(Cobs::try_new(Slice::new(&mut b1)).unwrap(), C16.digest())).unwrap();
+        eq_prefix(o1, &$want, $m);
+    };
+    (@run hvec, $v:ident, $want:ident, $m:ident, $cap:literal) => {
+        let o2: heapless::Vec<u8, 24> =
+            postcard::serialize_with_flavor(&$v, CrcModifier::new(Cobs::try_new(HVec::<24>::new()).unwrap(), C16.digest())).unwrap();
+        eq_prefix(&o2[..], &$want, $m);
+    };
+    (@run alloc, $v:ident, $want:ident, $m:ident, $cap:literal) => {
+        let o3: Vec<u8> =
+            postcard::serialize_with_flavor(&$v, CrcModifier::new(Cobs::try_new(AllocVec::new()).unwrap(), C16.digest())).unwrap();
+        eq_prefix(&o3[..], &$want, $m);
+        core::mem::forget(o3);
+    };
 }
-//@ tier=quick class=core cap=1200 bounds="all u32 values: CrcModifier<u16> over Cobs over {Slice,HVec<24>,AllocVec} == COBS(plain++crc)++00 (reference COBS and bitwise CRC); undo layers in reverse"
-stack_crc_cobs!(c20_crc_cobs_u32, u32, 5, 12);
-//@ tier=thorough class=core cap=2400 bounds="all Named values: same stack"
-stack_crc_cobs!(c20_crc_cobs_named, Named, 9, 16);
-//@ tier=thorough class=core cap=2400 bounds="all u64 values: same stack"
-stack_crc_cobs!(c20_crc_cobs_u64, u64, 10, 17);
+//@ tier=quick class=core cap=1200 bounds="all u16 values: CrcModifier<u16> over Cobs over Slice == COBS(plain++crc16)++00 (reference COBS, bitwise CRC)"
+stack_crc_cobs!(c20_crc_cobs_slice_u16, u16, 3, 10, slice);
+//@ tier=quick class=core cap=1200 bounds="all u16 values: same stack over HVec<24>"
+stack_crc_cobs!(c20_crc_cobs_hvec_u16, u16, 3, 10, hvec);
+//@ tier=thorough class=best cap=1800 bounds="all u16 values: same stack over AllocVec (heap)"
+stack_crc_cobs!(c20_crc_cobs_alloc_u16, u16, 3, 10, alloc);
+//@ tier=thorough class=core cap=2400 bounds="all u32 values: stack over Slice"
+stack_crc_cobs!(c20_crc_cobs_slice_u32, u32, 5, 12, slice);
+//@ tier=thorough class=best cap=2400 bounds="all Named values: stack over Slice"
+stack_crc_cobs!(c20_crc_cobs_slice_named, Named, 9, 16, slice);
 
 #[kani::proof]
-#[kani::unwind(16)]
-//@ tier=quick class=core cap=1200 bounds="all Named values: single modifiers (Cobs; Crc16; Crc32) over Slice/HVec/AllocVec equal the reference transform of the plain bytes, storage-independent"
-fn c20_single_modifiers_named() {
-    let v: Named = kani::any();
-    let mut pb = [0u8; 9];
+#[kani::unwind(10)]
+//@ tier=quick class=core cap=1200 bounds="all u16 values: undoing the layers in reverse order (COBS decode, then CRC check) recovers the value"
+fn c20_undo_layers_u16() {
+    let v: u16 = kani::any();
+    let mut b1 = [0u8; 9];
+    let o1 = postcard::serialize_with_flavor(&v, CrcModifier::new(Cobs::try_new(Slice::new(&mut b1)).unwrap(), C16.digest())).unwrap();
+    let m = o1.len();
+    let dn = cobs::decode_in_place(&mut o1[..m]).unwrap();
+    let back: u16 = postcard::de_flavors::crc::from_bytes_u16(&o1[..dn], C16.digest()).unwrap();
+    assert!(back == v, "undoing COBS then CRC does not recover the value");
+    kani::cover!(m == 9, "longest frame reachable");
+}
+
+#[kani::proof]
+#[kani::unwind(12)]
+//@ tier=quick class=core cap=1200 bounds="all u32 values: single modifiers over two storages equal the reference transform (Cobs over Slice and HVec)"
+fn c20_single_cobs_u32() {
+    let v: u32 = kani::any();
+    let mut pb = [0u8; 5];
     let plain = postcard::to_slice(&v, &mut pb).unwrap();
-    let n = plain.len();
-    // COBS
     let e = cobs_encode(plain);
-    let mut b1 = [0u8; 12];
+    let mut b1 = [0u8; 8];
     let o1 = postcard::serialize_with_flavor(&v, Cobs::try_new(Slice::new(&mut b1)).unwrap()).unwrap();
     assert!(o1.len() == e.n + 1 && o1[e.n] == 0);
     eq_prefix(&o1[..e.n], &e.b, e.n);
-    let o2: heapless::Vec<u8, 24> = postcard::serialize_with_flavor(&v, Cobs::try_new(HVec::<24>::new()).unwrap()).unwrap();
+    let o2: heapless::Vec<u8, 8> = postcard::serialize_with_flavor(&v, Cobs::try_new(HVec::<8>::new()).unwrap()).unwrap();
     assert!(o2.len() == e.n + 1 && o2[e.n] == 0);
     eq_prefix(&o2[..e.n], &e.b, e.n);
-    // CRC-32 over HVec and AllocVec
+    kani::cover!(plain.len() == 5, "longest payload reachable");
+}
+
+#[kani::proof]
+#[kani::unwind(12)]
+//@ tier=quick class=core cap=1200 bounds="all u32 values: CrcModifier<u32> over HVec equals plain ++ le(crc32) (bitwise reference)"
+fn c20_single_crc_u32() {
+    let v: u32 = kani::any();
+    let mut pb = [0u8; 5];
+    let plain = postcard::to_slice(&v, &mut pb).unwrap();
+    let n = plain.len();
     let c = crc_bitwise(&CRC_32_ISCSI, plain) as u32;
-    let o3: heapless::Vec<u8, 24> = postcard::serialize_with_flavor(&v, CrcModifier::new(HVec::<24>::new(), C32.digest())).unwrap();
+    let o3: heapless::Vec<u8, 12> = postcard::serialize_with_flavor(&v, CrcModifier::new(HVec::<12>::new(), C32.digest())).unwrap();
     assert!(o3.len() == n + 4);
     eq_prefix(&o3[..n], plain, n);
     assert!(o3[n] == c as u8 && o3[n + 1] == (c >> 8) as u8 && o3[n + 2] == (c >> 16) as u8 && o3[n + 3] == (c >> 24) as u8);
-    let o4: Vec<u8> = postcard::serialize_with_flavor(&v, CrcModifier::new(AllocVec::new(), C32.digest())).unwrap();
-    assert!(o4.len() == n + 4);
-    eq_prefix(&o4[..], &o3[..], n + 4);
-    core::mem::forget(o4);
-    kani::cover!(n == 9, "longest payload reachable");
+    kani::cover!(n == 5, "longest payload reachable");
 }
 
 /// A user-supplied flavour that records what it is given (fixed-array log).
